@@ -35,6 +35,7 @@ theorem setFields_nil_append (urec : URec) (rest : List (String × Json)) (m : N
 
 theorem sf_str_gen {urec : URec} {K : String} {upd : Node → String → Node}
     (hset : ∀ m st s, setField urec m st K (.str s) = .ok (upd m s, st))
+    (hK : canonKey K = K)
     (m : Node) (st : Store) (s : String) (rest : List (String × Json)) (hm : upd m "" = m) :
     setFields urec (mStr K s ++ rest) m st = setFields urec rest (upd m s) st := by
   unfold mStr
@@ -44,23 +45,29 @@ theorem sf_str_gen {urec : URec} {K : String} {upd : Node → String → Node}
     subst hs
     rw [hm]
     rfl
-  · simp only [List.cons_append, List.nil_append, setFields, hset, Res.bind_ok]
+  · simp only [List.cons_append, List.nil_append, setFields, setMember_eq_setField urec _ _ _ hK, hset, Res.bind_ok]
 
 theorem sf_bool_gen {urec : URec} {K : String} {upd : Node → Bool → Node}
     (hset : ∀ m st, setField urec m st K (.bool true) = .ok (upd m true, st))
+    (hK : canonKey K = K)
     (m : Node) (st : Store) (b : Bool) (rest : List (String × Json)) (hm : upd m false = m) :
     setFields urec (mBool K b ++ rest) m st = setFields urec rest (upd m b) st := by
   cases b with
   | false => rw [hm]; rfl
-  | true => simp only [mBool_true, List.cons_append, List.nil_append, setFields, hset, Res.bind_ok]
+  | true =>
+    simp only [mBool_true, List.cons_append, List.nil_append, setFields, setMember_eq_setField urec _ _ _ hK, hset,
+      Res.bind_ok]
 
 theorem sf_num_gen {urec : URec} {K : String} {upd : Node → Option Rat → Node}
     (hset : ∀ m st q, setField urec m st K (.num q) = .ok (upd m (some q), st))
+    (hK : canonKey K = K)
     (m : Node) (st : Store) (o : Option Rat) (rest : List (String × Json)) (hm : upd m none = m) :
     setFields urec (mNum K o ++ rest) m st = setFields urec rest (upd m o) st := by
   cases o with
   | none => rw [hm]; rfl
-  | some q => simp only [mNum_some, List.cons_append, List.nil_append, setFields, hset, Res.bind_ok]
+  | some q =>
+    simp only [mNum_some, List.cons_append, List.nil_append, setFields, setMember_eq_setField urec _ _ _ hK, hset,
+      Res.bind_ok]
 
 theorem decInteger_int (i : Int) (h : (-2147483648 : Int) ≤ i ∧ i ≤ 2147483647) :
     decInteger (.num (i : Rat)) = .ok (some i) := by
@@ -75,14 +82,15 @@ theorem decInteger_int (i : Int) (h : (-2147483648 : Int) ≤ i ∧ i ≤ 214748
 
 theorem sf_int_gen {urec : URec} {K : String} {upd : Node → Option Int → Node}
     (hset : ∀ m st q, setField urec m st K (.num q) = Res.bind (decInteger (.num q)) fun i => .ok (upd m i, st))
+    (hK : canonKey K = K)
     (m : Node) (st : Store) (o : Option Int) (rest : List (String × Json)) (hw : InInt32 o)
     (hm : upd m none = m) :
     setFields urec (mInt K o ++ rest) m st = setFields urec rest (upd m o) st := by
   cases o with
   | none => rw [hm]; rfl
   | some i =>
-    simp only [mInt_some, List.cons_append, List.nil_append, setFields, hset, decInteger_int i (hw i rfl),
-      Res.bind_ok]
+    simp only [mInt_some, List.cons_append, List.nil_append, setFields, setMember_eq_setField urec _ _ _ hK, hset,
+      decInteger_int i (hw i rfl), Res.bind_ok]
 
 theorem foldr_strs {F : Json → Res (List String) → Res (List String)}
     (hF : ∀ s acc, F (.str s) (.ok acc) = .ok (s :: acc)) :
@@ -120,9 +128,9 @@ theorem sf_typ (urec : URec) (N m : Node) (st : Store) (rest : List (String × J
       rw [hts]
       have e : ({ m with type := "", types := some ts } : Node) = { ({ m with type := "" } : Node) with types := some ts } := rfl
       rw [e, h1]
-      show Res.bind (setField urec m st "type" (strs ts)) _ = _
+      show setFields urec (("type", strs ts) :: rest) m st = _
       have : setField urec m st "type" (strs ts) = Res.bind (decStrList (strs ts)) fun l => .ok ({ m with types := l }, st) := rfl
-      rw [this, decStrList_strs]
+      rw [setFields_cons_canon urec _ _ _ _ (by decide), this, decStrList_strs]
       rfl
     · next hts =>
       rw [hts]
@@ -137,10 +145,10 @@ theorem sf_required (urec : URec) (N m : Node) (st : Store) (rest : List (String
   split
   · next x xs hx =>
     rw [hx]
-    show Res.bind (setField urec m st "required" (strs (x :: xs))) _ = _
+    show setFields urec (("required", strs (x :: xs)) :: rest) m st = _
     have : setField urec m st "required" (strs (x :: xs)) =
         Res.bind (decStrList (strs (x :: xs))) fun l => .ok ({ m with required := l }, st) := rfl
-    rw [this, decStrList_strs]
+    rw [setFields_cons_canon urec _ _ _ _ (by decide), this, decStrList_strs]
     rfl
   · next hx =>
     have : (match N.required with | some (x :: xs) => some (x :: xs) | _ => none) = (none : Option (List String)) := by
@@ -165,67 +173,67 @@ theorem setFields_scalarMembers (urec : URec) (st : Store) (v_type : String) (v_
   unfold scalarMembers
   refine (sf_typ urec (scalarNode v_type v_id v_schema v_ref v_comment v_anchor v_dynamicAnchor v_dynamicRef v_title v_description v_deprecated v_readOnly v_writeOnly v_multipleOf v_minimum v_maximum v_exclusiveMinimum v_exclusiveMaximum v_minLength v_maxLength v_pattern v_minItems v_maxItems v_uniqueItems v_minContains v_maxContains v_minProperties v_maxProperties v_required v_contentEncoding v_contentMediaType v_format v_types v_extra) emptyNode st _ hT rfl rfl).trans ?_
   dsimp only [scalarNode, emptyNode]
-  refine (sf_str_gen (K := "$id") (upd := fun m s => { m with id := s }) (fun _ _ _ => rfl) _ st v_id _ rfl).trans ?_
+  refine (sf_str_gen (K := "$id") (upd := fun m s => { m with id := s }) (fun _ _ _ => rfl) (by decide) _ st v_id _ rfl).trans ?_
   dsimp only [scalarNode]
-  refine (sf_str_gen (K := "$schema") (upd := fun m s => { m with schema := s }) (fun _ _ _ => rfl) _ st v_schema _ rfl).trans ?_
+  refine (sf_str_gen (K := "$schema") (upd := fun m s => { m with schema := s }) (fun _ _ _ => rfl) (by decide) _ st v_schema _ rfl).trans ?_
   dsimp only [scalarNode]
-  refine (sf_str_gen (K := "$ref") (upd := fun m s => { m with ref := s }) (fun _ _ _ => rfl) _ st v_ref _ rfl).trans ?_
+  refine (sf_str_gen (K := "$ref") (upd := fun m s => { m with ref := s }) (fun _ _ _ => rfl) (by decide) _ st v_ref _ rfl).trans ?_
   dsimp only [scalarNode]
-  refine (sf_str_gen (K := "$comment") (upd := fun m s => { m with comment := s }) (fun _ _ _ => rfl) _ st v_comment _ rfl).trans ?_
+  refine (sf_str_gen (K := "$comment") (upd := fun m s => { m with comment := s }) (fun _ _ _ => rfl) (by decide) _ st v_comment _ rfl).trans ?_
   dsimp only [scalarNode]
-  refine (sf_str_gen (K := "$anchor") (upd := fun m s => { m with anchor := s }) (fun _ _ _ => rfl) _ st v_anchor _ rfl).trans ?_
+  refine (sf_str_gen (K := "$anchor") (upd := fun m s => { m with anchor := s }) (fun _ _ _ => rfl) (by decide) _ st v_anchor _ rfl).trans ?_
   dsimp only [scalarNode]
-  refine (sf_str_gen (K := "$dynamicAnchor") (upd := fun m s => { m with dynamicAnchor := s }) (fun _ _ _ => rfl) _ st v_dynamicAnchor _ rfl).trans ?_
+  refine (sf_str_gen (K := "$dynamicAnchor") (upd := fun m s => { m with dynamicAnchor := s }) (fun _ _ _ => rfl) (by decide) _ st v_dynamicAnchor _ rfl).trans ?_
   dsimp only [scalarNode]
-  refine (sf_str_gen (K := "$dynamicRef") (upd := fun m s => { m with dynamicRef := s }) (fun _ _ _ => rfl) _ st v_dynamicRef _ rfl).trans ?_
+  refine (sf_str_gen (K := "$dynamicRef") (upd := fun m s => { m with dynamicRef := s }) (fun _ _ _ => rfl) (by decide) _ st v_dynamicRef _ rfl).trans ?_
   dsimp only [scalarNode]
-  refine (sf_str_gen (K := "title") (upd := fun m s => { m with title := s }) (fun _ _ _ => rfl) _ st v_title _ rfl).trans ?_
+  refine (sf_str_gen (K := "title") (upd := fun m s => { m with title := s }) (fun _ _ _ => rfl) (by decide) _ st v_title _ rfl).trans ?_
   dsimp only [scalarNode]
-  refine (sf_str_gen (K := "description") (upd := fun m s => { m with description := s }) (fun _ _ _ => rfl) _ st v_description _ rfl).trans ?_
+  refine (sf_str_gen (K := "description") (upd := fun m s => { m with description := s }) (fun _ _ _ => rfl) (by decide) _ st v_description _ rfl).trans ?_
   dsimp only [scalarNode]
-  refine (sf_bool_gen (K := "deprecated") (upd := fun m s => { m with deprecated := s }) (fun _ _ => rfl) _ st v_deprecated _ rfl).trans ?_
+  refine (sf_bool_gen (K := "deprecated") (upd := fun m s => { m with deprecated := s }) (fun _ _ => rfl) (by decide) _ st v_deprecated _ rfl).trans ?_
   dsimp only [scalarNode]
-  refine (sf_bool_gen (K := "readOnly") (upd := fun m s => { m with readOnly := s }) (fun _ _ => rfl) _ st v_readOnly _ rfl).trans ?_
+  refine (sf_bool_gen (K := "readOnly") (upd := fun m s => { m with readOnly := s }) (fun _ _ => rfl) (by decide) _ st v_readOnly _ rfl).trans ?_
   dsimp only [scalarNode]
-  refine (sf_bool_gen (K := "writeOnly") (upd := fun m s => { m with writeOnly := s }) (fun _ _ => rfl) _ st v_writeOnly _ rfl).trans ?_
+  refine (sf_bool_gen (K := "writeOnly") (upd := fun m s => { m with writeOnly := s }) (fun _ _ => rfl) (by decide) _ st v_writeOnly _ rfl).trans ?_
   dsimp only [scalarNode]
-  refine (sf_num_gen (K := "multipleOf") (upd := fun m s => { m with multipleOf := s }) (fun _ _ _ => rfl) _ st v_multipleOf _ rfl).trans ?_
+  refine (sf_num_gen (K := "multipleOf") (upd := fun m s => { m with multipleOf := s }) (fun _ _ _ => rfl) (by decide) _ st v_multipleOf _ rfl).trans ?_
   dsimp only [scalarNode]
-  refine (sf_num_gen (K := "minimum") (upd := fun m s => { m with minimum := s }) (fun _ _ _ => rfl) _ st v_minimum _ rfl).trans ?_
+  refine (sf_num_gen (K := "minimum") (upd := fun m s => { m with minimum := s }) (fun _ _ _ => rfl) (by decide) _ st v_minimum _ rfl).trans ?_
   dsimp only [scalarNode]
-  refine (sf_num_gen (K := "maximum") (upd := fun m s => { m with maximum := s }) (fun _ _ _ => rfl) _ st v_maximum _ rfl).trans ?_
+  refine (sf_num_gen (K := "maximum") (upd := fun m s => { m with maximum := s }) (fun _ _ _ => rfl) (by decide) _ st v_maximum _ rfl).trans ?_
   dsimp only [scalarNode]
-  refine (sf_num_gen (K := "exclusiveMinimum") (upd := fun m s => { m with exclusiveMinimum := s }) (fun _ _ _ => rfl) _ st v_exclusiveMinimum _ rfl).trans ?_
+  refine (sf_num_gen (K := "exclusiveMinimum") (upd := fun m s => { m with exclusiveMinimum := s }) (fun _ _ _ => rfl) (by decide) _ st v_exclusiveMinimum _ rfl).trans ?_
   dsimp only [scalarNode]
-  refine (sf_num_gen (K := "exclusiveMaximum") (upd := fun m s => { m with exclusiveMaximum := s }) (fun _ _ _ => rfl) _ st v_exclusiveMaximum _ rfl).trans ?_
+  refine (sf_num_gen (K := "exclusiveMaximum") (upd := fun m s => { m with exclusiveMaximum := s }) (fun _ _ _ => rfl) (by decide) _ st v_exclusiveMaximum _ rfl).trans ?_
   dsimp only [scalarNode]
-  refine (sf_int_gen (K := "minLength") (upd := fun m s => { m with minLength := s }) (fun _ _ _ => rfl) _ st v_minLength _ hw_minLength rfl).trans ?_
+  refine (sf_int_gen (K := "minLength") (upd := fun m s => { m with minLength := s }) (fun _ _ _ => rfl) (by decide) _ st v_minLength _ hw_minLength rfl).trans ?_
   dsimp only [scalarNode]
-  refine (sf_int_gen (K := "maxLength") (upd := fun m s => { m with maxLength := s }) (fun _ _ _ => rfl) _ st v_maxLength _ hw_maxLength rfl).trans ?_
+  refine (sf_int_gen (K := "maxLength") (upd := fun m s => { m with maxLength := s }) (fun _ _ _ => rfl) (by decide) _ st v_maxLength _ hw_maxLength rfl).trans ?_
   dsimp only [scalarNode]
-  refine (sf_str_gen (K := "pattern") (upd := fun m s => { m with pattern := s }) (fun _ _ _ => rfl) _ st v_pattern _ rfl).trans ?_
+  refine (sf_str_gen (K := "pattern") (upd := fun m s => { m with pattern := s }) (fun _ _ _ => rfl) (by decide) _ st v_pattern _ rfl).trans ?_
   dsimp only [scalarNode]
-  refine (sf_int_gen (K := "minItems") (upd := fun m s => { m with minItems := s }) (fun _ _ _ => rfl) _ st v_minItems _ hw_minItems rfl).trans ?_
+  refine (sf_int_gen (K := "minItems") (upd := fun m s => { m with minItems := s }) (fun _ _ _ => rfl) (by decide) _ st v_minItems _ hw_minItems rfl).trans ?_
   dsimp only [scalarNode]
-  refine (sf_int_gen (K := "maxItems") (upd := fun m s => { m with maxItems := s }) (fun _ _ _ => rfl) _ st v_maxItems _ hw_maxItems rfl).trans ?_
+  refine (sf_int_gen (K := "maxItems") (upd := fun m s => { m with maxItems := s }) (fun _ _ _ => rfl) (by decide) _ st v_maxItems _ hw_maxItems rfl).trans ?_
   dsimp only [scalarNode]
-  refine (sf_bool_gen (K := "uniqueItems") (upd := fun m s => { m with uniqueItems := s }) (fun _ _ => rfl) _ st v_uniqueItems _ rfl).trans ?_
+  refine (sf_bool_gen (K := "uniqueItems") (upd := fun m s => { m with uniqueItems := s }) (fun _ _ => rfl) (by decide) _ st v_uniqueItems _ rfl).trans ?_
   dsimp only [scalarNode]
-  refine (sf_int_gen (K := "minContains") (upd := fun m s => { m with minContains := s }) (fun _ _ _ => rfl) _ st v_minContains _ hw_minContains rfl).trans ?_
+  refine (sf_int_gen (K := "minContains") (upd := fun m s => { m with minContains := s }) (fun _ _ _ => rfl) (by decide) _ st v_minContains _ hw_minContains rfl).trans ?_
   dsimp only [scalarNode]
-  refine (sf_int_gen (K := "maxContains") (upd := fun m s => { m with maxContains := s }) (fun _ _ _ => rfl) _ st v_maxContains _ hw_maxContains rfl).trans ?_
+  refine (sf_int_gen (K := "maxContains") (upd := fun m s => { m with maxContains := s }) (fun _ _ _ => rfl) (by decide) _ st v_maxContains _ hw_maxContains rfl).trans ?_
   dsimp only [scalarNode]
-  refine (sf_int_gen (K := "minProperties") (upd := fun m s => { m with minProperties := s }) (fun _ _ _ => rfl) _ st v_minProperties _ hw_minProperties rfl).trans ?_
+  refine (sf_int_gen (K := "minProperties") (upd := fun m s => { m with minProperties := s }) (fun _ _ _ => rfl) (by decide) _ st v_minProperties _ hw_minProperties rfl).trans ?_
   dsimp only [scalarNode]
-  refine (sf_int_gen (K := "maxProperties") (upd := fun m s => { m with maxProperties := s }) (fun _ _ _ => rfl) _ st v_maxProperties _ hw_maxProperties rfl).trans ?_
+  refine (sf_int_gen (K := "maxProperties") (upd := fun m s => { m with maxProperties := s }) (fun _ _ _ => rfl) (by decide) _ st v_maxProperties _ hw_maxProperties rfl).trans ?_
   dsimp only [scalarNode]
   refine (sf_required urec (scalarNode v_type v_id v_schema v_ref v_comment v_anchor v_dynamicAnchor v_dynamicRef v_title v_description v_deprecated v_readOnly v_writeOnly v_multipleOf v_minimum v_maximum v_exclusiveMinimum v_exclusiveMaximum v_minLength v_maxLength v_pattern v_minItems v_maxItems v_uniqueItems v_minContains v_maxContains v_minProperties v_maxProperties v_required v_contentEncoding v_contentMediaType v_format v_types v_extra) _ st _ rfl).trans ?_
   dsimp only [scalarNode]
-  refine (sf_str_gen (K := "contentEncoding") (upd := fun m s => { m with contentEncoding := s }) (fun _ _ _ => rfl) _ st v_contentEncoding _ rfl).trans ?_
+  refine (sf_str_gen (K := "contentEncoding") (upd := fun m s => { m with contentEncoding := s }) (fun _ _ _ => rfl) (by decide) _ st v_contentEncoding _ rfl).trans ?_
   dsimp only [scalarNode]
-  refine (sf_str_gen (K := "contentMediaType") (upd := fun m s => { m with contentMediaType := s }) (fun _ _ _ => rfl) _ st v_contentMediaType _ rfl).trans ?_
+  refine (sf_str_gen (K := "contentMediaType") (upd := fun m s => { m with contentMediaType := s }) (fun _ _ _ => rfl) (by decide) _ st v_contentMediaType _ rfl).trans ?_
   dsimp only [scalarNode]
-  refine (sf_str_gen (K := "format") (upd := fun m s => { m with format := s }) (fun _ _ _ => rfl) _ st v_format _ rfl).trans ?_
+  refine (sf_str_gen (K := "format") (upd := fun m s => { m with format := s }) (fun _ _ _ => rfl) (by decide) _ st v_format _ rfl).trans ?_
   dsimp only [scalarNode]
   rfl
 
@@ -285,6 +293,7 @@ theorem scalar_roundtrip (st : Store) (mrec : MRec) (urec : URec) (id : NodeId) 
     (v_type : String) (v_id : String) (v_schema : String) (v_ref : String) (v_comment : String) (v_anchor : String) (v_dynamicAnchor : String) (v_dynamicRef : String) (v_title : String) (v_description : String) (v_deprecated : Bool) (v_readOnly : Bool) (v_writeOnly : Bool) (v_multipleOf : Option Rat) (v_minimum : Option Rat) (v_maximum : Option Rat) (v_exclusiveMinimum : Option Rat) (v_exclusiveMaximum : Option Rat) (v_minLength : Option Int) (v_maxLength : Option Int) (v_pattern : String) (v_minItems : Option Int) (v_maxItems : Option Int) (v_uniqueItems : Bool) (v_minContains : Option Int) (v_maxContains : Option Int) (v_minProperties : Option Int) (v_maxProperties : Option Int) (v_required : Option (List String)) (v_contentEncoding : String) (v_contentMediaType : String) (v_format : String) (v_types : Option (List String)) (v_extra : Option (List (String × Json)))
     (hT : (v_type != "" && v_types.isSome) = false) (hw_minLength : InInt32 v_minLength) (hw_maxLength : InInt32 v_maxLength) (hw_minItems : InInt32 v_minItems) (hw_maxItems : InInt32 v_maxItems) (hw_minContains : InInt32 v_minContains) (hw_maxContains : InInt32 v_maxContains) (hw_minProperties : InInt32 v_minProperties) (hw_maxProperties : InInt32 v_maxProperties)
     (hk : ∀ e, e ∈ v_extra.getD [] → e.1 ∉ knownKeys)
+    (hf : ∀ e, e ∈ v_extra.getD [] → isFoldedKey e.1 = false)
     (hsj : ∀ e, e ∈ v_extra.getD [] → sortJson e.2 = e.2)
     (hn : st.get? id = some (scalarNode v_type v_id v_schema v_ref v_comment v_anchor v_dynamicAnchor v_dynamicRef v_title v_description v_deprecated v_readOnly v_writeOnly v_multipleOf v_minimum v_maximum v_exclusiveMinimum v_exclusiveMaximum v_minLength v_maxLength v_pattern v_minItems v_maxItems v_uniqueItems v_minContains v_maxContains v_minProperties v_maxProperties v_required v_contentEncoding v_contentMediaType v_format v_types v_extra))
     (hj : marshalStep st mrec id = .ok j) :
@@ -298,7 +307,8 @@ theorem scalar_roundtrip (st : Store) (mrec : MRec) (urec : URec) (id : NodeId) 
     intro urec
     rw [setFields_append, setFields_scalarMembers urec st2 v_type v_id v_schema v_ref v_comment v_anchor v_dynamicAnchor v_dynamicRef v_title v_description v_deprecated v_readOnly v_writeOnly v_multipleOf v_minimum v_maximum v_exclusiveMinimum v_exclusiveMaximum v_minLength v_maxLength v_pattern v_minItems v_maxItems v_uniqueItems v_minContains v_maxContains v_minProperties v_maxProperties v_required v_contentEncoding v_contentMediaType v_format v_types v_extra hT hw_minLength hw_maxLength hw_minItems hw_maxItems hw_minContains hw_maxContains hw_minProperties hw_maxProperties, Res.bind_ok]
     show setFields urec (sortKV (v_extra.getD [])) (scalarNode' v_type v_id v_schema v_ref v_comment v_anchor v_dynamicAnchor v_dynamicRef v_title v_description v_deprecated v_readOnly v_writeOnly v_multipleOf v_minimum v_maximum v_exclusiveMinimum v_exclusiveMaximum v_minLength v_maxLength v_pattern v_minItems v_maxItems v_uniqueItems v_minContains v_maxContains v_minProperties v_maxProperties v_required v_contentEncoding v_contentMediaType v_format v_types) st2 = _
-    rw [setFields_unknown urec _ _ _ (fun e he => hk e ((sortKV_perm _).mem_iff.1 he)),
+    rw [setFields_unknown urec _ _ _ (fun e he => hk e ((sortKV_perm _).mem_iff.1 he))
+        (fun e he => hf e ((sortKV_perm _).mem_iff.1 he)),
       foldl_addExtra_norm _ rfl]
   generalize scalarMembers (scalarNode v_type v_id v_schema v_ref v_comment v_anchor v_dynamicAnchor v_dynamicRef v_title v_description v_deprecated v_readOnly v_writeOnly v_multipleOf v_minimum v_maximum v_exclusiveMinimum v_exclusiveMaximum v_minLength v_maxLength v_pattern v_minItems v_maxItems v_uniqueItems v_minContains v_maxContains v_minProperties v_maxProperties v_required v_contentEncoding v_contentMediaType v_format v_types v_extra) ++ sortKV ((scalarNode v_type v_id v_schema v_ref v_comment v_anchor v_dynamicAnchor v_dynamicRef v_title v_description v_deprecated v_readOnly v_writeOnly v_multipleOf v_minimum v_maximum v_exclusiveMinimum v_exclusiveMaximum v_minLength v_maxLength v_pattern v_minItems v_maxItems v_uniqueItems v_minContains v_maxContains v_minProperties v_maxProperties v_required v_contentEncoding v_contentMediaType v_format v_types v_extra).extra.getD []) = M at hj chain
   unfold mFinish at hj
@@ -328,12 +338,13 @@ theorem scalarOnly_roundtrip (st : Store) (mrec : MRec) (urec : URec) (id : Node
     (n : Node) (hs : ScalarOnly n) (hT : (n.type != "" && n.types.isSome) = false)
     (hw_minLength : InInt32 n.minLength) (hw_maxLength : InInt32 n.maxLength) (hw_minItems : InInt32 n.minItems) (hw_maxItems : InInt32 n.maxItems) (hw_minContains : InInt32 n.minContains) (hw_maxContains : InInt32 n.maxContains) (hw_minProperties : InInt32 n.minProperties) (hw_maxProperties : InInt32 n.maxProperties)
     (hk : ∀ e, e ∈ n.extra.getD [] → e.1 ∉ knownKeys)
+    (hf : ∀ e, e ∈ n.extra.getD [] → isFoldedKey e.1 = false)
     (hsj : ∀ e, e ∈ n.extra.getD [] → sortJson e.2 = e.2)
     (hn : st.get? id = some n) (hj : marshalStep st mrec id = .ok j) :
     unmarshalStep urec j st2 =
       .ok (st2.alloc { n with required := normReq n.required, extra := normExtra n.extra }) := by
   rw [← scalarNode'_eq n hs]
-  refine scalar_roundtrip st mrec urec id st2 j n.type n.id n.schema n.ref n.comment n.anchor n.dynamicAnchor n.dynamicRef n.title n.description n.deprecated n.readOnly n.writeOnly n.multipleOf n.minimum n.maximum n.exclusiveMinimum n.exclusiveMaximum n.minLength n.maxLength n.pattern n.minItems n.maxItems n.uniqueItems n.minContains n.maxContains n.minProperties n.maxProperties n.required n.contentEncoding n.contentMediaType n.format n.types n.extra hT hw_minLength hw_maxLength hw_minItems hw_maxItems hw_minContains hw_maxContains hw_minProperties hw_maxProperties hk hsj ?_ hj
+  refine scalar_roundtrip st mrec urec id st2 j n.type n.id n.schema n.ref n.comment n.anchor n.dynamicAnchor n.dynamicRef n.title n.description n.deprecated n.readOnly n.writeOnly n.multipleOf n.minimum n.maximum n.exclusiveMinimum n.exclusiveMaximum n.minLength n.maxLength n.pattern n.minItems n.maxItems n.uniqueItems n.minContains n.maxContains n.minProperties n.maxProperties n.required n.contentEncoding n.contentMediaType n.format n.types n.extra hT hw_minLength hw_maxLength hw_minItems hw_maxItems hw_minContains hw_maxContains hw_minProperties hw_maxProperties hk hf hsj ?_ hj
   rw [scalarNode_of_scalarOnly hs]
   exact hn
 
